@@ -341,8 +341,13 @@ func TestCheck(t *testing.T) {
 			return res
 		}
 		cfg := enumCfg{maxProcs: 2, maxSize: 4, depths: []int{0, 1, 2}}
+		tlcCov := map[string]any{}
 		if env.Thorough() {
 			cfg = enumCfg{maxProcs: 3, maxSize: 5, depths: []int{0, 1, 2, 3}}
+			// first (bounded work): the oracle itself is cross-checked against pcal + TLC
+			tenv := env
+			tenv.Deadline = time.Now().Add(time.Until(env.Deadline) / 3)
+			tlcValidate(tenv, tlcCov)
 		}
 		type job struct{ p *Prog }
 		jobs := make(chan job, 256)
@@ -499,8 +504,8 @@ func TestCheck(t *testing.T) {
 		if capHit.Load() {
 			cov["cap_hit"] = "deadline"
 		}
-		if env.Thorough() {
-			tlcValidate(env, cov)
+		for k, v := range tlcCov {
+			cov[k] = v
 		}
 		res.Coverage = cov
 		return res
